@@ -26,11 +26,532 @@ def Sorted (frames : List Frame) : Prop := frames.Pairwise (fun a b => a.step < 
 def Covers (frames : List Frame) (last : Int) : Prop :=
   1 ≤ last ∧ (∃ f ∈ frames, f.step ≤ 0) ∧ (∃ f ∈ frames, last ≤ f.step)
 
+/-! ### helper lemmas: look-ups in a sorted table, one read, one update -/
+
+theorem indexOf_append_cons (pre : List Frame) (a : Frame) (rest : List Frame) (k : Int)
+    (hpre : ∀ x ∈ pre, x.step ≠ k) (ha : a.step = k) :
+    indexOf (pre ++ a :: rest) k = some pre.length := by
+  induction pre with
+  | nil => simp [indexOf, List.findIdx?_cons, ha]
+  | cons x xs ih =>
+    have h1 := hpre x (by simp)
+    have h2 := ih (fun y hy => hpre y (by simp [hy]))
+    simp only [indexOf] at h2 ⊢
+    simp [List.findIdx?_cons, h1, h2]
+
+theorem indexOf_none (l : List Frame) (k : Int) (h : ∀ x ∈ l, x.step ≠ k) : indexOf l k = none := by
+  simp [indexOf, List.findIdx?_eq_none_iff]
+  exact h
+
+theorem frameOf_append_cons (pre : List Frame) (a : Frame) (rest : List Frame) (k : Int)
+    (hpre : ∀ x ∈ pre, x.step ≠ k) (ha : a.step = k) :
+    frameOf (pre ++ a :: rest) k = some a := by
+  induction pre with
+  | nil => simp [frameOf, ha]
+  | cons x xs ih =>
+    have h1 := hpre x (by simp)
+    have h2 := ih (fun y hy => hpre y (by simp [hy]))
+    simp only [frameOf] at h2 ⊢
+    simp [h1, h2]
+
+theorem read_of_frameOf (m : FM) (val : Nat → Nat → Rat) (step : Int) (fr : Frame)
+    (h : frameOf m.frames step = some fr) :
+    m.read val step = some (val fr.file fr.idx,
+      { m with openFile := some fr.file, reads := m.reads ++ [(step, fr.file, fr.idx)] }) := by
+  unfold FM.read
+  rw [h]
+  cases hm : m.openFile with
+  | none => simp
+  | some f => 
+    by_cases hf : f = fr.file
+    · subst hf; simp
+    · simp [hf]
+
+theorem read_mk (frames : List Frame) (u unew dU scal : Rat) (openFile : Option Nat)
+    (reads : List (Int × Nat × Nat)) (val : Nat → Nat → Rat) (step : Int) (fr : Frame)
+    (h : frameOf frames step = some fr) :
+    FM.read ⟨frames, u, unew, dU, scal, openFile, reads⟩ val step =
+      some (val fr.file fr.idx,
+        ⟨frames, u, unew, dU, scal, some fr.file, reads ++ [(step, fr.file, fr.idx)]⟩) :=
+  read_of_frameOf _ _ _ _ h
+
+/-- every logged read names a frame of the table, with that frame's file and index -/
+def ReadsOK (frames : List Frame) (reads : List (Int × Nat × Nat)) : Prop :=
+  ∀ r ∈ reads, ∃ fr ∈ frames, fr.step = r.1 ∧ fr.file = r.2.1 ∧ fr.idx = r.2.2
+
+theorem readsOK_nil (frames : List Frame) : ReadsOK frames [] := by
+  intro r hr; cases hr
+
+theorem readsOK_snoc {frames : List Frame} {reads : List (Int × Nat × Nat)} (h : ReadsOK frames reads)
+    {fr : Frame} (hfr : fr ∈ frames) : ReadsOK frames (reads ++ [(fr.step, fr.file, fr.idx)]) := by
+  intro r hr
+  rcases List.mem_append.1 hr with hr | hr
+  · exact h r hr
+  · simp at hr; subst hr; exact ⟨fr, hfr, rfl, rfl, rfl⟩
+
+theorem update_nonframe (m : FM) (valU valS : Nat → Nat → Rat) (hasS : Bool) (k : Int)
+    (h : ∀ x ∈ m.frames, x.step ≠ k) :
+    m.update valU valS hasS k = some { m with u := m.u + m.dU } := by
+  unfold FM.update
+  rw [indexOf_none _ _ h]
+
+theorem update_frame (m : FM) (valU valS : Nat → Nat → Rat) (hasS : Bool)
+    (pre : List Frame) (b : Frame) (post : List Frame)
+    (hfr : m.frames = pre ++ b :: post)
+    (hpre : ∀ x ∈ pre, x.step ≠ b.step)
+    (hpost : ∀ c ∈ post, ∀ x ∈ pre ++ [b], x.step ≠ c.step)
+    (hreads : ReadsOK m.frames m.reads) :
+    ∃ m', m.update valU valS hasS b.step = some m' ∧ m'.frames = m.frames ∧ m'.u = m.unew ∧
+      (hasS = true → m'.scal = valS b.file b.idx) ∧ ReadsOK m.frames m'.reads ∧
+      (post = [] ∨ ∃ c post', post = c :: post' ∧ m'.unew = valU c.file c.idx ∧
+        m'.dU = (valU c.file c.idx - m.unew) / ((c.step - b.step : Int) : Rat)) := by
+  obtain ⟨frames, u, unew, dU, scal, openFile, reads⟩ := m
+  simp only at hfr hreads ⊢
+  subst hfr
+  have hb : b ∈ pre ++ b :: post := by simp
+  have hidx := indexOf_append_cons pre b post b.step hpre rfl
+  have hfo := frameOf_append_cons pre b post b.step hpre rfl
+  unfold FM.update
+  simp only [hidx]
+  cases hasS with
+  | false =>
+    cases post with
+    | nil => simp [hreads]
+    | cons c post' =>
+      have hfc : frameOf (pre ++ b :: c :: post') c.step = some c := by
+        have := frameOf_append_cons (pre ++ [b]) c post' c.step (hpost c (by simp)) rfl
+        simpa using this
+      simp [read_mk _ _ _ _ _ _ _ _ _ _ hfc]
+      exact readsOK_snoc hreads (by simp)
+  | true => 
+    cases post with
+    | nil => 
+      simp [read_mk _ _ _ _ _ _ _ _ _ _ hfo]
+      exact readsOK_snoc hreads (by simp)
+    | cons c post' =>
+      have hfc : frameOf (pre ++ b :: c :: post') c.step = some c := by
+        have := frameOf_append_cons (pre ++ [b]) c post' c.step (hpost c (by simp)) rfl
+        simpa using this
+      simp [read_mk _ _ _ _ _ _ _ _ _ _ hfc, read_mk _ _ _ _ _ _ _ _ _ _ hfo]
+      have := readsOK_snoc (readsOK_snoc hreads hb) (fr := c) (by simp)
+      simpa using this
+
+theorem sorted_split {pre : List Frame} {a b : Frame} {post : List Frame}
+    (hs : Sorted (pre ++ a :: b :: post)) :
+    (∀ x ∈ pre, x.step < a.step) ∧ a.step < b.step ∧ (∀ x ∈ post, b.step < x.step) := by
+  unfold Sorted at hs
+  rw [List.pairwise_append] at hs
+  obtain ⟨_, h2, h3⟩ := hs
+  rw [List.pairwise_cons, List.pairwise_cons] at h2
+  exact ⟨fun x hx => h3 x hx a (by simp), h2.1 b (by simp), fun x hx => h2.2.1 x hx⟩
+
+theorem sorted_last {pre : List Frame} {a : Frame} (hs : Sorted (pre ++ [a])) :
+    ∀ x ∈ pre, x.step < a.step := by
+  unfold Sorted at hs
+  rw [List.pairwise_append] at hs
+  exact fun x hx => hs.2.2 x hx a (by simp)
+
+def Mid (frames : List Frame) (valU valS : Nat → Nat → Rat) (hasS : Bool) (m : FM) (n : Int) : Prop :=
+  ∃ pre a b post, frames = pre ++ a :: b :: post ∧ a.step ≤ n ∧ n < b.step ∧
+    m.unew = valU b.file b.idx ∧
+    m.dU = (valU b.file b.idx - valU a.file a.idx) / ((b.step - a.step : Int) : Rat) ∧
+    m.u = valU a.file a.idx + ((n - a.step : Int) : Rat) * m.dU ∧
+    (hasS = true → m.scal = valS a.file a.idx)
+
+def AtLast (frames : List Frame) (valU valS : Nat → Nat → Rat) (hasS : Bool) (m : FM) (n : Int) : Prop :=
+  ∃ pre a, frames = pre ++ [a] ∧ n = a.step ∧ m.u = valU a.file a.idx ∧
+    (hasS = true → m.scal = valS a.file a.idx)
+
+def Degen (frames : List Frame) (valU : Nat → Nat → Rat) (m : FM) : Prop :=
+  ∃ pre a b post, frames = pre ++ a :: b :: post ∧ a.step = 0 ∧ m.unew = valU a.file a.idx
+
+def Inv (frames : List Frame) (valU valS : Nat → Nat → Rat) (hasS : Bool) (m : FM) (n : Int) : Prop :=
+  m.frames = frames ∧ ReadsOK frames m.reads ∧
+    (Mid frames valU valS hasS m n ∨ AtLast frames valU valS hasS m n)
+
+theorem update_mid (frames : List Frame) (valU valS : Nat → Nat → Rat) (hasS : Bool) (m : FM) (n : Int)
+    (hs : Sorted frames) (hfr : m.frames = frames) (hreads : ReadsOK frames m.reads)
+    (hmid : Mid frames valU valS hasS m n) :
+    ∃ m', m.update valU valS hasS (n + 1) = some m' ∧ Inv frames valU valS hasS m' (n + 1) := by
+  obtain ⟨pre, a, b, post, hdec, hlo, hhi, hunew, hdU, hu, hscal⟩ := hmid
+  subst hdec
+  obtain ⟨hpre, hab, hpost⟩ := sorted_split hs
+  have hpos : (0:ℤ) < b.step - a.step := by omega
+  have hL : ((b.step - a.step : Int) : ℚ) ≠ 0 := by exact_mod_cast (ne_of_gt hpos)
+  by_cases hstep : b.step = n + 1
+  · -- a frame step
+    have hfr' : m.frames = (pre ++ [a]) ++ b :: post := by simp [hfr]
+    have h1 : ∀ x ∈ pre ++ [a], x.step ≠ b.step := by
+      intro x hx
+      rcases List.mem_append.1 hx with hx | hx
+      · have := hpre x hx; omega
+      · simp at hx; subst hx; omega
+    have h2 : ∀ c ∈ post, ∀ x ∈ (pre ++ [a]) ++ [b], x.step ≠ c.step := by
+      intro c hc x hx
+      have hc' := hpost c hc
+      rcases List.mem_append.1 hx with hx | hx
+      · have := h1 x hx
+        rcases List.mem_append.1 hx with hx | hx
+        · have := hpre x hx; omega
+        · simp at hx; subst hx; omega
+      · simp at hx; subst hx; omega
+    obtain ⟨m', hup, hfm, hu', hs', hr', hnext⟩ :=
+      update_frame m valU valS hasS (pre ++ [a]) b post hfr' h1 h2 (by rw [hfr]; exact hreads)
+    rw [hstep] at hup
+    refine ⟨m', hup, by rw [hfm, hfr], by rw [← hfr]; exact hr', ?_⟩
+    have hval : m'.u = valU b.file b.idx := by rw [hu', hunew]
+    rcases hnext with hnil | ⟨c, post', hc, hun, hd⟩
+    · subst hnil
+      exact Or.inr ⟨pre ++ [a], b, by simp, hstep.symm, hval, hs'⟩
+    · subst hc
+      have hbc := hpost c (by simp)
+      refine Or.inl ⟨pre ++ [a], b, c, post', by simp, by omega, by omega, hun, ?_, ?_, hs'⟩
+      · rw [hd, hunew]
+      · rw [hval, ← hstep]; simp
+  · -- between frames
+    have hlt : n + 1 < b.step := by omega
+    have hnf : ∀ x ∈ m.frames, x.step ≠ n + 1 := by
+      rw [hfr]
+      intro x hx
+      simp only [List.mem_append, List.mem_cons] at hx
+      rcases hx with hx | hx | hx | hx
+      · have := hpre x hx; omega
+      · subst hx; omega
+      · subst hx; omega
+      · have := hpost x hx; omega
+    refine ⟨_, update_nonframe m valU valS hasS (n + 1) hnf, hfr, hreads, Or.inl ?_⟩
+    refine ⟨pre, a, b, post, rfl, by omega, hlt, hunew, hdU, ?_, hscal⟩
+    simp only
+    rw [hu]; push_cast; ring
+
+theorem update_degen (frames : List Frame) (valU valS : Nat → Nat → Rat) (hasS : Bool) (m : FM)
+    (hs : Sorted frames) (hfr : m.frames = frames) (hreads : ReadsOK frames m.reads)
+    (hd : Degen frames valU m) :
+    ∃ m', m.update valU valS hasS 0 = some m' ∧ Inv frames valU valS hasS m' 0 := by
+  obtain ⟨pre, a, b, post, hdec, ha0, hunew⟩ := hd
+  subst hdec
+  obtain ⟨hpre, hab, hpost⟩ := sorted_split hs
+  have h1 : ∀ x ∈ pre, x.step ≠ a.step := by
+    intro x hx; have := hpre x hx; omega
+  have h2 : ∀ c ∈ b :: post, ∀ x ∈ pre ++ [a], x.step ≠ c.step := by
+    intro c hc x hx
+    have hc' : b.step ≤ c.step := by
+      rcases List.mem_cons.1 hc with hc | hc
+      · subst hc; exact le_refl _
+      · exact le_of_lt (hpost c hc)
+    rcases List.mem_append.1 hx with hx | hx
+    · have := hpre x hx; omega
+    · simp at hx; subst hx; omega
+  obtain ⟨m', hup, hfm, hu', hs', hr', hnext⟩ :=
+    update_frame m valU valS hasS pre a (b :: post) hfr h1 h2 (by rw [hfr]; exact hreads)
+  rw [ha0] at hup
+  refine ⟨m', hup, by rw [hfm, hfr], by rw [← hfr]; exact hr', Or.inl ?_⟩
+  rcases hnext with hnil | ⟨c, post', hc, hun, hd⟩
+  · cases hnil
+  · cases hc
+    refine ⟨pre, a, _, _, rfl, by omega, by omega, hun, ?_, ?_, hs'⟩
+    · rw [hd, hunew]
+    · rw [hu', hunew, ha0]; simp
+
+theorem filter_split_left {α : Type} (p : α → Bool) (l1 l2 : List α)
+    (h1 : ∀ x ∈ l1, p x = true) (h2 : ∀ x ∈ l2, p x = false) : (l1 ++ l2).filter p = l1 := by
+  rw [List.filter_append, List.filter_eq_self.2 h1,
+    List.filter_eq_nil_iff.2 (fun x hx => by simp [h2 x hx]), List.append_nil]
+
+theorem filter_split_right {α : Type} (p : α → Bool) (l1 l2 : List α)
+    (h1 : ∀ x ∈ l1, p x = false) (h2 : ∀ x ∈ l2, p x = true) : (l1 ++ l2).filter p = l2 := by
+  rw [List.filter_append, List.filter_eq_self.2 h2,
+    List.filter_eq_nil_iff.2 (fun x hx => by simp [h1 x hx]), List.nil_append]
+
+theorem exists_split (l : List Frame) (k : Int) (hs : Sorted l)
+    (h1 : ∃ f ∈ l, f.step ≤ k) (h2 : ∃ g ∈ l, k < g.step) :
+    ∃ pre a b post, l = pre ++ a :: b :: post ∧ a.step ≤ k ∧ k < b.step := by
+  induction l with
+  | nil => obtain ⟨f, hf, _⟩ := h1; cases hf
+  | cons x xs ih =>
+    unfold Sorted at hs
+    rw [List.pairwise_cons] at hs
+    obtain ⟨hx, hxs⟩ := hs
+    obtain ⟨g, hg, hgk⟩ := h2
+    by_cases h : ∃ f ∈ xs, f.step ≤ k
+    · obtain ⟨f, hf, hfk⟩ := h
+      have hg' : g ∈ xs := by
+        rcases List.mem_cons.1 hg with hg | hg
+        · subst hg; have := hx f hf; omega
+        · exact hg
+      obtain ⟨pre, a, b, post, hdec, ha, hb⟩ := ih hxs ⟨f, hf, hfk⟩ ⟨g, hg', hgk⟩
+      exact ⟨x :: pre, a, b, post, by simp [hdec], ha, hb⟩
+    · obtain ⟨f, hf, hfk⟩ := h1
+      have hfx : f = x := by
+        rcases List.mem_cons.1 hf with hf | hf
+        · exact hf
+        · exact absurd ⟨f, hf, hfk⟩ h
+      subst hfx
+      have hg' : g ∈ xs := by
+        rcases List.mem_cons.1 hg with hg | hg
+        · subst hg; omega
+        · exact hg
+      cases xs with
+      | nil => cases hg'
+      | cons y ys =>
+        refine ⟨[], f, y, ys, rfl, hfk, ?_⟩
+        by_contra hy
+        exact h ⟨y, by simp, by omega⟩
+
+theorem foldl_max_le (L : List Int) (h x : Int) (hh : h ≤ x) (hL : ∀ y ∈ L, y ≤ x) :
+    L.foldl max h ≤ x := by
+  induction L generalizing h with
+  | nil => simpa using hh
+  | cons y ys ih =>
+    rw [List.foldl_cons]
+    exact ih _ (max_le hh (hL y (by simp))) (fun z hz => hL z (by simp [hz]))
+
+theorem prestep_neg {pre : List Frame} {a b : Frame} {post : List Frame}
+    (hs : Sorted (pre ++ a :: b :: post)) (ha : a.step < 0) (hb : 0 ≤ b.step) :
+    (((pre ++ a :: b :: post).filter (·.step < 0)).map (·.step)).foldl max
+      ((((pre ++ a :: b :: post).filter (·.step < 0)).map (·.step)).headD 0) = a.step := by
+  obtain ⟨hpre, hab, hpost⟩ := sorted_split hs
+  have hf : (pre ++ a :: b :: post).filter (·.step < 0) = pre ++ [a] := by
+    have : pre ++ a :: b :: post = (pre ++ [a]) ++ (b :: post) := by simp
+    rw [this]
+    apply filter_split_left
+    · intro x hx
+      rcases List.mem_append.1 hx with hx | hx
+      · have := hpre x hx; simp; omega
+      · simp at hx; subst hx; simpa using ha
+    · intro x hx
+      rcases List.mem_cons.1 hx with hx | hx
+      · subst hx; simpa using hb
+      · have := hpost x hx; simp; omega
+  rw [hf, List.map_append, List.map_cons, List.map_nil, List.foldl_append, List.foldl_cons,
+    List.foldl_nil]
+  apply max_eq_right
+  apply foldl_max_le
+  · cases pre with
+    | nil => simp
+    | cons y ys => simpa using le_of_lt (hpre y (by simp))
+  · intro y hy
+    obtain ⟨z, hz, rfl⟩ := List.mem_map.1 hy
+    exact le_of_lt (hpre z hz)
+
+theorem prestep_nonneg {frames : List Frame} (h : ∀ f ∈ frames, 0 ≤ f.step) :
+    ((frames.filter (·.step < 0)).map (·.step)).foldl max
+      (((frames.filter (·.step < 0)).map (·.step)).headD 0) = 0 := by
+  have hf : frames.filter (·.step < 0) = [] := by
+    apply List.filter_eq_nil_iff.2
+    intro x hx; have := h x hx; simp; omega
+  rw [hf]; rfl
+
+theorem init_of_split (valU valS : Nat → Nat → Rat) (hasS : Bool)
+    (pre : List Frame) (a b : Frame) (post : List Frame)
+    (hs : Sorted (pre ++ a :: b :: post))
+    (hp : (((pre ++ a :: b :: post).filter (·.step < 0)).map (·.step)).foldl max
+      ((((pre ++ a :: b :: post).filter (·.step < 0)).map (·.step)).headD 0) = a.step) :
+    ∃ m0, FM.init (pre ++ a :: b :: post) valU valS hasS = some m0 ∧
+      m0.frames = pre ++ a :: b :: post ∧ ReadsOK (pre ++ a :: b :: post) m0.reads ∧
+      m0.dU = (valU b.file b.idx - valU a.file a.idx) / ((b.step - a.step : Int) : Rat) ∧
+      m0.unew = (if a.step = 0 then valU a.file a.idx else valU b.file b.idx) ∧
+      m0.u = valU a.file a.idx - ((a.step + 1 : Int) : Rat) * m0.dU ∧
+      (hasS = true → m0.scal = valS a.file a.idx) := by
+  obtain ⟨hpre, hab, hpost⟩ := sorted_split hs
+  have h1 : ∀ x ∈ pre, x.step ≠ a.step := by
+    intro x hx; have := hpre x hx; omega
+  have h2 : ∀ x ∈ pre ++ [a], x.step ≠ b.step := by
+    intro x hx
+    rcases List.mem_append.1 hx with hx | hx
+    · have := hpre x hx; omega
+    · simp at hx; subst hx; omega
+  have hidx := indexOf_append_cons pre a (b :: post) a.step h1 rfl
+  have hfa := frameOf_append_cons pre a (b :: post) a.step h1 rfl
+  have hfb : frameOf (pre ++ a :: b :: post) b.step = some b := by
+    have := frameOf_append_cons (pre ++ [a]) b post b.step h2 rfl
+    simpa using this
+  have hget : (pre ++ a :: b :: post)[pre.length + 1]? = some b := by simp
+  have hma : a ∈ pre ++ a :: b :: post := by simp
+  have hmb : b ∈ pre ++ a :: b :: post := by simp
+  unfold FM.init
+  simp only [hp, hidx, hget, read_mk _ _ _ _ _ _ _ _ _ _ hfa, read_mk _ _ _ _ _ _ _ _ _ _ hfb]
+  cases hasS with
+  | false =>
+    simp
+    have := readsOK_snoc (readsOK_snoc (readsOK_nil _) hma) hmb
+    simpa using this
+  | true =>
+    simp
+    have := readsOK_snoc (readsOK_snoc (readsOK_snoc (readsOK_nil _) hma) hmb) hma
+    simpa using this
+
+theorem init_spec (frames : List Frame) (valU valS : Nat → Nat → Rat) (hasS : Bool) (last : Int)
+    (hs : Sorted frames) (hc : Covers frames last) :
+    ∃ m0, FM.init frames valU valS hasS = some m0 ∧ m0.frames = frames ∧ ReadsOK frames m0.reads ∧
+      (Mid frames valU valS hasS m0 (-1) ∨ Degen frames valU m0) := by
+  obtain ⟨hl, ⟨f, hf, hf0⟩, ⟨g, hg, hgl⟩⟩ := hc
+  by_cases hneg : ∃ x ∈ frames, x.step < 0
+  · obtain ⟨x, hx, hx0⟩ := hneg
+    obtain ⟨pre, a, b, post, hdec, ha, hb⟩ :=
+      exists_split frames (-1) hs ⟨x, hx, by omega⟩ ⟨g, hg, by omega⟩
+    subst hdec
+    obtain ⟨m0, hinit, hfr, hr, hdU, hunew, hu, hsc⟩ :=
+      init_of_split valU valS hasS pre a b post hs (prestep_neg hs (by omega) (by omega))
+    refine ⟨m0, hinit, hfr, hr, Or.inl ⟨pre, a, b, post, rfl, ha, hb, ?_, hdU, ?_, hsc⟩⟩
+    · rw [hunew, if_neg (by omega)]
+    · rw [hu]; push_cast; ring
+  · have hnn : ∀ x ∈ frames, 0 ≤ x.step := by
+      intro x hx; by_contra h; exact hneg ⟨x, hx, by omega⟩
+    obtain ⟨pre, a, b, post, hdec, ha, hb⟩ :=
+      exists_split frames 0 hs ⟨f, hf, hf0⟩ ⟨g, hg, by omega⟩
+    have ha0 : a.step = 0 := by
+      have := hnn a (by simp [hdec]); omega
+    subst hdec
+    obtain ⟨m0, hinit, hfr, hr, hdU, hunew, hu, hsc⟩ :=
+      init_of_split valU valS hasS pre a b post hs (by rw [prestep_nonneg hnn, ha0])
+    refine ⟨m0, hinit, hfr, hr, Or.inr ⟨pre, a, b, post, rfl, ha0, ?_⟩⟩
+    rw [hunew, if_pos ha0]
+
+/-- at the last frame of the table no later frame exists -/
+theorem atLast_max {frames : List Frame} {valU valS : Nat → Nat → Rat} {hasS : Bool} {m : FM} {n : Int}
+    (hs : Sorted frames) (h : AtLast frames valU valS hasS m n) : ∀ g ∈ frames, g.step ≤ n := by
+  obtain ⟨pre, a, hdec, hn, _, _⟩ := h
+  subst hdec
+  intro g hg
+  rcases List.mem_append.1 hg with hg | hg
+  · have := sorted_last hs g hg; omega
+  · simp at hg; subst hg; omega
+
+/-- the main invariant holds after the update of every step the frames cover -/
+theorem run_spec (frames : List Frame) (valU valS : Nat → Nat → Rat) (hasS : Bool) (last : Int)
+    (hs : Sorted frames) (hc : Covers frames last) (n : Nat) (hn : (n : Int) ≤ last) :
+    ∃ m0 m, FM.init frames valU valS hasS = some m0 ∧
+      FM.run m0 valU valS hasS (n + 1) = some m ∧ Inv frames valU valS hasS m n := by
+  obtain ⟨m0, hinit, hfr0, hr0, h0⟩ := init_spec frames valU valS hasS last hs hc
+  obtain ⟨hl, _, ⟨g, hg, hgl⟩⟩ := hc
+  suffices h : ∃ m, FM.run m0 valU valS hasS (n + 1) = some m ∧ Inv frames valU valS hasS m n by
+    obtain ⟨m, h1, h2⟩ := h
+    exact ⟨m0, m, hinit, h1, h2⟩
+  induction n with
+  | zero =>
+    have hrun : FM.run m0 valU valS hasS (0 + 1) = m0.update valU valS hasS 0 := by
+      simp [FM.run]
+    rw [hrun]
+    rcases h0 with h0 | h0
+    · have := update_mid frames valU valS hasS m0 (-1) hs hfr0 hr0 h0
+      simpa using this
+    · have := update_degen frames valU valS hasS m0 hs hfr0 hr0 h0
+      simpa using this
+  | succ k ih =>
+    obtain ⟨m, hrun, hfr, hr, hinv⟩ := ih (by omega)
+    have hrun' : FM.run m0 valU valS hasS (k + 1 + 1) = m.update valU valS hasS ((k : Int) + 1) := by
+      rw [FM.run, hrun]; simp
+    rw [hrun']
+    rcases hinv with hmid | hlast
+    · have := update_mid frames valU valS hasS m (k : Int) hs hfr hr hmid
+      simpa using this
+    · have := atLast_max hs hlast g hg
+      push_cast at hn
+      omega
+
+theorem interp_mid (val : Nat → Nat → Rat) (pre : List Frame) (a b : Frame) (post : List Frame)
+    (hs : Sorted (pre ++ a :: b :: post)) (t : Rat) (h1 : (a.step : Rat) ≤ t) (h2 : t < (b.step : Rat)) :
+    interpFrames (pre ++ a :: b :: post) val t =
+      some (val a.file a.idx + (t - a.step) *
+        ((val b.file b.idx - val a.file a.idx) / ((b.step - a.step : Int) : Rat))) := by
+  obtain ⟨hpre, hab, hpost⟩ := sorted_split hs
+  have hdec : pre ++ a :: b :: post = (pre ++ [a]) ++ (b :: post) := by simp
+  have hbefore : (pre ++ a :: b :: post).filter (fun f => (f.step : Rat) ≤ t) = pre ++ [a] := by
+    rw [hdec]
+    apply filter_split_left
+    · intro x hx
+      rcases List.mem_append.1 hx with hx | hx
+      · have : (x.step : Rat) < a.step := by exact_mod_cast hpre x hx
+        simp; linarith
+      · simp at hx; subst hx; simpa using h1
+    · intro x hx
+      rcases List.mem_cons.1 hx with hx | hx
+      · subst hx; simpa using h2
+      · have : (b.step : Rat) < x.step := by exact_mod_cast hpost x hx
+        simp; linarith
+  have hafter : (pre ++ a :: b :: post).filter (fun f => t < (f.step : Rat)) = b :: post := by
+    rw [hdec]
+    apply filter_split_right
+    · intro x hx
+      rcases List.mem_append.1 hx with hx | hx
+      · have : (x.step : Rat) < a.step := by exact_mod_cast hpre x hx
+        simp; linarith
+      · simp at hx; subst hx; simpa using h1
+    · intro x hx
+      rcases List.mem_cons.1 hx with hx | hx
+      · subst hx; simpa using h2
+      · have : (b.step : Rat) < x.step := by exact_mod_cast hpost x hx
+        simp; linarith
+  unfold interpFrames
+  simp only [hbefore, hafter]
+  simp
+
+theorem interp_last (val : Nat → Nat → Rat) (pre : List Frame) (a : Frame)
+    (hs : Sorted (pre ++ [a])) :
+    interpFrames (pre ++ [a]) val (a.step : Rat) = some (val a.file a.idx) := by
+  have hpre := sorted_last hs
+  have hbefore : (pre ++ [a]).filter (fun f => (f.step : Rat) ≤ (a.step : Rat)) = pre ++ [a] := by
+    apply List.filter_eq_self.2
+    intro x hx
+    rcases List.mem_append.1 hx with hx | hx
+    · have := hpre x hx
+      simp; omega
+    · simp at hx; subst hx; simp
+  have hafter : (pre ++ [a]).filter (fun f => (a.step : Rat) < (f.step : Rat)) = [] := by
+    apply List.filter_eq_nil_iff.2
+    intro x hx
+    rcases List.mem_append.1 hx with hx | hx
+    · have := hpre x hx
+      simp; omega
+    · simp at hx; subst hx; simp
+  unfold interpFrames
+  simp only [hbefore, hafter]
+  simp
+
+theorem latest_mid (val : Nat → Nat → Rat) (pre : List Frame) (a b : Frame) (post : List Frame)
+    (hs : Sorted (pre ++ a :: b :: post)) (n : Int) (h1 : a.step ≤ n) (h2 : n < b.step) :
+    latestFrame (pre ++ a :: b :: post) val n = some (val a.file a.idx) := by
+  obtain ⟨hpre, hab, hpost⟩ := sorted_split hs
+  have hdec : pre ++ a :: b :: post = (pre ++ [a]) ++ (b :: post) := by simp
+  have hbefore : (pre ++ a :: b :: post).filter (fun f => f.step ≤ n) = pre ++ [a] := by
+    rw [hdec]
+    apply filter_split_left
+    · intro x hx
+      rcases List.mem_append.1 hx with hx | hx
+      · have := hpre x hx
+        simp; omega
+      · simp at hx; subst hx; simpa using h1
+    · intro x hx
+      rcases List.mem_cons.1 hx with hx | hx
+      · subst hx; simpa using h2
+      · have := hpost x hx
+        simp; omega
+  unfold latestFrame
+  rw [hbefore]
+  simp
+
+theorem latest_last (val : Nat → Nat → Rat) (pre : List Frame) (a : Frame)
+    (hs : Sorted (pre ++ [a])) :
+    latestFrame (pre ++ [a]) val a.step = some (val a.file a.idx) := by
+  have hpre := sorted_last hs
+  have hbefore : (pre ++ [a]).filter (fun f => f.step ≤ a.step) = pre ++ [a] := by
+    apply List.filter_eq_self.2
+    intro x hx
+    rcases List.mem_append.1 hx with hx | hx
+    · have := hpre x hx
+      simp; omega
+    · simp at hx; subst hx; simp
+  unfold latestFrame
+  rw [hbefore]
+  simp
+
 /-- **init_ok**: on a covered, sorted table the start-up succeeds -/
 theorem init_ok (frames : List Frame) (valU valS : Nat → Nat → Rat) (hasS : Bool) (last : Int)
     (hs : Sorted frames) (hc : Covers frames last) :
     ∃ m0, FM.init frames valU valS hasS = some m0 := by
-  sorry
+  obtain ⟨m0, h, _⟩ := init_spec frames valU valS hasS last hs hc
+  exact ⟨m0, h⟩
 
 /-- **u_eq_interp**: after the update of step `n` (for every `n` the frames cover) the running
     field equals the linear interpolation between the two frames that bracket step `n`
@@ -40,7 +561,21 @@ theorem u_eq_interp (frames : List Frame) (valU valS : Nat → Nat → Rat) (has
     ∃ m0 m, FM.init frames valU valS hasS = some m0 ∧
       FM.run m0 valU valS hasS (n + 1) = some m ∧
       interpFrames frames valU (n : Rat) = some m.u := by
-  sorry
+  obtain ⟨m0, m, hinit, hrun, _, _, hinv⟩ := run_spec frames valU valS hasS last hs hc n hn
+  refine ⟨m0, m, hinit, hrun, ?_⟩
+  rcases hinv with ⟨pre, a, b, post, hdec, hlo, hhi, hunew, hdU, hu, _⟩ | ⟨pre, a, hdec, hna, hu, _⟩
+  · subst hdec
+    rw [interp_mid valU pre a b post hs (n : Rat) (by exact_mod_cast hlo) (by exact_mod_cast hhi),
+      hu, hdU]
+    push_cast; rfl
+  · subst hdec
+    have : ((n : ℕ) : Rat) = ((a.step : Int) : Rat) := by exact_mod_cast hna
+    rw [this, interp_last valU pre a hs, hu]
+
+/-- below the threshold 0.001 the code returns the field of the step itself -/
+theorem velocity_below_threshold (m : FM) (f : Rat) (hf : f < 1/1000) : m.velocity f = m.u := by
+  unfold FM.velocity
+  rw [if_pos hf]
 
 /-- **velocity_frac**: a velocity requested a fraction `f` of a step ahead (`f = 0` or
     `1/1000 ≤ f ≤ 1`; the tracker asks for 0, ½ and 1) equals the same interpolation evaluated
@@ -51,11 +586,55 @@ theorem velocity_frac (frames : List Frame) (valU valS : Nat → Nat → Rat) (h
     ∃ m0 m, FM.init frames valU valS hasS = some m0 ∧
       FM.run m0 valU valS hasS (n + 1) = some m ∧
       interpFrames frames valU ((n : Rat) + f) = some (m.velocity f) := by
-  sorry
-
-/-- below the threshold 0.001 the code returns the field of the step itself -/
-theorem velocity_below_threshold (m : FM) (f : Rat) (hf : f < 1/1000) : m.velocity f = m.u := by
-  sorry
+  obtain ⟨m0, m, hinit, hrun, _, _, hinv⟩ :=
+    run_spec frames valU valS hasS last hs hc n (le_of_lt hn)
+  refine ⟨m0, m, hinit, hrun, ?_⟩
+  obtain ⟨_, _, ⟨g, hg, hgl⟩⟩ := hc
+  rcases hinv with ⟨pre, a, b, post, hdec, hlo, hhi, hunew, hdU, hu, _⟩ | hlast
+  swap
+  · have := atLast_max hs hlast g hg
+    omega
+  subst hdec
+  obtain ⟨hpre, hab, hpost⟩ := sorted_split hs
+  have hpos : (0:ℤ) < b.step - a.step := by omega
+  have hL : ((b.step - a.step : Int) : ℚ) ≠ 0 := by exact_mod_cast (ne_of_gt hpos)
+  have hloQ : (a.step : Rat) ≤ (n : Rat) := by exact_mod_cast hlo
+  have hhiQ : ((n : Rat) + 1) ≤ (b.step : Rat) := by exact_mod_cast (show (n : Int) + 1 ≤ b.step by omega)
+  rcases hf with hf0 | ⟨hf1, hf2⟩
+  · subst hf0
+    rw [velocity_below_threshold m 0 (by norm_num), add_zero,
+      interp_mid valU pre a b post hs (n : Rat) hloQ (by linarith), hu, hdU]
+    push_cast; rfl
+  · have hv : m.velocity f = m.u + f * m.dU := by
+      unfold FM.velocity
+      rw [if_neg (by linarith)]
+    rw [hv]
+    by_cases hlt : (n : Rat) + f < (b.step : Rat)
+    · rw [interp_mid valU pre a b post hs _ (by linarith) hlt, hu, hdU]
+      push_cast; ring_nf
+    · -- `f = 1` and step `n + 1` is the next frame
+      have hf1' : f = 1 := by linarith
+      have hbn : (b.step : Rat) = (n : Rat) + 1 := by linarith
+      subst hf1'
+      have hub : m.u + 1 * m.dU = valU b.file b.idx := by
+        rw [hu, hdU]
+        have : ((n - a.step : Int) : Rat) = (b.step : Rat) - 1 - a.step := by
+          push_cast; linarith
+        rw [this]
+        push_cast at hL ⊢
+        field_simp
+        ring
+      rw [hub, ← hbn]
+      cases post with
+      | nil =>
+        have hs' : Sorted ((pre ++ [a]) ++ [b]) := by simpa using hs
+        have := interp_last valU (pre ++ [a]) b hs'
+        simpa using this
+      | cons c post' =>
+        have hs' : Sorted ((pre ++ [a]) ++ b :: c :: post') := by simpa using hs
+        have := interp_mid valU (pre ++ [a]) b c post' hs' (b.step : Rat) (le_refl _)
+          (by exact_mod_cast hpost c (by simp))
+        simpa using this
 
 /-- **scalar_latest**: the scalar field in force is the latest frame at or before the step -/
 theorem scalar_latest (frames : List Frame) (valU valS : Nat → Nat → Rat) (last : Int)
@@ -63,7 +642,13 @@ theorem scalar_latest (frames : List Frame) (valU valS : Nat → Nat → Rat) (l
     ∃ m0 m, FM.init frames valU valS true = some m0 ∧
       FM.run m0 valU valS true (n + 1) = some m ∧
       latestFrame frames valS (n : Int) = some m.scal := by
-  sorry
+  obtain ⟨m0, m, hinit, hrun, _, _, hinv⟩ := run_spec frames valU valS true last hs hc n hn
+  refine ⟨m0, m, hinit, hrun, ?_⟩
+  rcases hinv with ⟨pre, a, b, post, hdec, hlo, hhi, _, _, _, hsc⟩ | ⟨pre, a, hdec, hna, _, hsc⟩
+  · subst hdec
+    rw [latest_mid valS pre a b post hs (n : Int) hlo hhi, hsc rfl]
+  · subst hdec
+    rw [hna, latest_last valS pre a hs, hsc rfl]
 
 /-- **reads_right_frame**: every read was made with the file open that holds the requested
     frame, at that frame's index — however the frames are split over files. -/
@@ -72,16 +657,21 @@ theorem reads_right_frame (frames : List Frame) (valU valS : Nat → Nat → Rat
     (m0 m : FM) (h0 : FM.init frames valU valS hasS = some m0)
     (hr : FM.run m0 valU valS hasS (n + 1) = some m) :
     ∀ r ∈ m.reads, ∃ fr ∈ frames, fr.step = r.1 ∧ fr.file = r.2.1 ∧ fr.idx = r.2.2 := by
-  sorry
+  obtain ⟨m0', m', hinit, hrun, _, hreads, _⟩ := run_spec frames valU valS hasS last hs hc n hn
+  rw [h0] at hinit
+  cases hinit
+  rw [hr] at hrun
+  cases hrun
+  exact hreads
 
 /-! non-vacuity: frames at steps −1, 1, 4 in two files; start between the first two -/
 def exFrames : List Frame := [⟨-1, 0, 0⟩, ⟨1, 0, 1⟩, ⟨4, 1, 0⟩]
 def exVal : Nat → Nat → Rat := fun f i => if f = 0 then (if i = 0 then 2 else 6) else 12
 
 example : Sorted exFrames ∧ Covers exFrames 4 := by
-  refine ⟨by decide, by decide, ⟨⟨-1, 0, 0⟩, by decide, by decide⟩, ⟨⟨4, 1, 0⟩, by decide, by decide⟩⟩
+  refine ⟨by simp [Sorted, exFrames], by decide, ⟨⟨-1, 0, 0⟩, by decide, by decide⟩, ⟨⟨4, 1, 0⟩, by decide, by decide⟩⟩
 
 example : ((FM.init exFrames exVal exVal true).bind (fun m => FM.run m exVal exVal true 3)).map (·.u) = some 8 := by
-  decide
+  decide +kernel
 
 end Ladim.C03
